@@ -241,7 +241,8 @@ def _snapshot(schd):
         stop_task=pool.stop_task_id,
         broadcasts=_prune(copy.deepcopy(schd.broadcast_mgr.broadcasts)),
         flow_counter=schd.flow_mgr.counter)
-    return dict(tasks=tasks, glob=glob)
+    # diag: not part of the contract, only to explain witnesses
+    return dict(tasks=tasks, glob=glob, diag=dict(stop_task_finished=bool(pool.stop_task_finished)))
 
 
 def _expected_after_restart(snap):
@@ -357,7 +358,31 @@ def kf_flow_counter_jumps_to_largest_flow_number(witness, res=None):
     return witness.get('scenario') == 'flownum' and 'end_restarted' in witness
 
 
+def kf_stop_task_finished_during_the_stop_is_forgotten(witness, res=None):
+    """clause 5: when the stop task succeeds while the scheduler is already stopping on request,
+    workflow_shutdown does not consume TaskPool.stop_task_finished (stop_mode is not None); the stop task is
+    saved and restored but the in-memory flag is not, the task never succeeds again, and the restarted run goes
+    on to the final cycle point where the uninterrupted run shuts down after the stop task"""
+    return (not _dis(witness) and witness.get('scenario') == 'stoptask' and 'end_restarted' in witness
+            and bool(witness.get('stop_task_already_finished_at_some_stop'))
+            and not witness.get('finished_only_in_uninterrupted'))
+
+
+def kf_sim_job_running_at_restart_ignores_broadcast(witness, res=None):
+    """clause 5 only, a defect of the simulation run mode rather than of the restored state (the broadcast IS
+    restored, clause 4): for a simulated job that was running at the stop (stop --now), sim_time_check rebuilds
+    ModeSettings from `rtconfig = configure_sim_mode(...)`, which returns None, so the broadcast
+    `[simulation]fail cycle points` is ignored and 3/b of scenario flows succeeds instead of failing"""
+    if _dis(witness) or witness.get('scenario') != 'flows' or 'end_restarted' not in witness:
+        return False
+    miss = {(x[0], x[2]) for x in witness.get('finished_only_in_uninterrupted', [])}
+    extra = {(x[0], x[2]) for x in witness.get('finished_only_in_restarted', [])}
+    return ('3/b' in witness.get('running_at_some_stop', ())
+            and miss == {('3/b', 'failed'), ('3/r', 'succeeded')} and extra == {('3/b', 'succeeded')})
+
+
 _KF = (kf_outputs_of_waiting_task_not_restored, kf_custom_outputs_restored_by_label_not_message,
+       kf_sim_job_running_at_restart_ignores_broadcast, kf_stop_task_finished_during_the_stop_is_forgotten,
        kf_retry_xtrigger_not_restored,
        kf_suicide_prerequisites_not_restored, kf_stop_task_lost_on_second_restart,
        kf_flow_counter_jumps_to_largest_flow_number)
@@ -365,6 +390,19 @@ _KF = (kf_outputs_of_waiting_task_not_restored, kf_custom_outputs_restored_by_la
 
 def _known(witness):
     return any(kf(witness) for kf in _KF)
+
+
+def _pick(witnesses, limit=12):
+    """witnesses that match no kf_* first, then round-robin over the kf_* classes so that each is represented"""
+    groups = {}
+    for w in witnesses:
+        groups.setdefault(next((kf.__name__ for kf in _KF if kf(w)), ''), []).append(w)
+    out = groups.pop('', [])[:limit]
+    while len(out) < limit and any(groups.values()):
+        for name in sorted(groups):
+            if groups[name] and len(out) < limit:
+                out.append(groups[name].pop(0))
+    return out
 
 
 # ---------------------------------------------------------------------------------------------------------------
@@ -602,6 +640,8 @@ async def _run_scenario(scn, seed, plan, bound, run_dir_root, tag):
                 stop=sp, reached=n_iter, snap_a=snap_a, n_tasks=len(snap_a['tasks']),
                 statuses=sorted({t['status'] for t in tasks}), flows=sorted({tuple(t['flows']) for t in tasks}),
                 max_submit=max([t['submit'] for t in tasks], default=0),
+                running=sorted(i for i, t in snap_a['tasks'].items() if t['status'] == 'running'),
+                stop_task_finished=snap_a['diag']['stop_task_finished'],
                 unsat_xtrig=any(not v for t in tasks for v in t['xtriggers'].values()),
                 custom_out=any(set(t['outputs']) - {'submitted', 'started', 'succeeded', 'failed'} for t in tasks),
                 held=any(t['held'] for t in tasks), glob={k: v for k, v in snap_a['glob'].items() if v}))
@@ -700,6 +740,8 @@ class _Isolated:
             if self.restore is not None:
                 flags, cycler, calendar = self.restore
                 cylc.flow.flags.verbosity, cylc.flow.flags.cylc7_back_compat = flags
+                for k in [k for k in vars(loader.DefaultCycler) if not k.startswith('__') and k not in cycler]:
+                    delattr(loader.DefaultCycler, k)          # (TYPE is unset until a config is loaded)
                 for k, v in cycler.items():
                     setattr(loader.DefaultCycler, k, v)
                 if calendar is not None:
@@ -801,7 +843,7 @@ def check(tier='quick', seed=0):
                 if time.time() - t0 > budget:
                     cnt['skipped'] += 1
                     continue
-                h = await _run_scenario(scn, seed, plan, 4 * n + 60, iso.run_dir_root, f'p{pi}')
+                h = await _run_scenario(scn, seed, plan, 4 * n + 60 + 4 * len(plan), iso.run_dir_root, f'p{pi}')
                 cnt['executed'] += 1
                 seen['prep'] += len(h.prep_set)
                 if not h.restarts:
@@ -841,6 +883,9 @@ def check(tier='quick', seed=0):
                     w = dict(scenario=scn['name'], seed=seed, stops=[list(p) for p in plan[:len(h.restarts)]][:3],
                              n_stops=len(h.restarts), all_stops=_compact(plan[:len(h.restarts)]),
                              end_uninterrupted=ref_out['end'], end_restarted=out['end'],
+                             running_at_some_stop=sorted({i for r in h.restarts for i in r['running']}),
+                             stop_task_already_finished_at_some_stop=any(
+                                 r['stop_task_finished'] for r in h.restarts),
                              finished_only_in_uninterrupted=miss[:4], finished_only_in_restarted=extra[:4],
                              note='entries = (task, flow numbers, status, completed outputs, submit number)')
                     if out['final_pool'] != ref_out['final_pool']:
@@ -908,7 +953,7 @@ def check(tier='quick', seed=0):
         vac.append(f'workflow-level state seen at a stop: {sorted(seen["glob"])}')
     res = []
     for c in sorted(_NAMES):
-        wit = sorted(bad[c], key=_known)          # witnesses that are not a known finding first
+        wit = _pick(bad[c])
         n_known = sum(1 for w in bad[c] if _known(w))
         d = dict(base, name=_NAMES[c], evaluations=evals[c])
         if bad[c]:
